@@ -129,6 +129,17 @@ recorded as a finding.
   one case in 100k was timing dependent.  The harness disables that self-close for its runs.
 * C19: one full-suite run failed `test_dtls_role_offer_active` under heavy load; 24/24 reruns
   passed on both trees - machine load, not a defect.
+* Load: with every quick check running at once next to 19 other jobs, one C12 case overran its 2 s
+  wall-clock budget and the hang marker crashed the `nontrivial` statistics (exit 1 on the unchanged
+  tree).  A case that overruns its budget is now re-run once with a budget ten times larger (at
+  least 60 s) before it counts as a hang, and a failing `nontrivial` is not fatal.  All 19 quick
+  checks were then run concurrently for three seeds: 57/57 exit 0.
+* C19 probe: the first version of the renegotiate-then-close probe read `readyState` of the received
+  tracks, which stays `live` until somebody calls `recv()`: it reported the unchanged tree.  The probe
+  now drains `recv()` until `MediaStreamError`, which is how a consumer observes the end of a track.
+* C02/C06/C17 sender tie: when the generator began to number ordered messages from stream sequence
+  numbers near 65535 the real sender still counted from 0 (the adapter did not preset
+  `_outbound_stream_seq`): 107 spurious disagreements, adapter corrected.
 """
 
 LIMITS = r"""
